@@ -43,6 +43,7 @@ type World struct {
 	roles *roleInfo
 	escMemo map[*ssa.Function]bool
 	spawnMemo map[*ssa.Function]bool
+	statPaths, statPathFns, statAbsStates int
 	comm  *commTable
 }
 
